@@ -14,7 +14,7 @@ from ..engine import SymInt, SymBool, _z
 from ..base import Goal
 from . import pyx
 
-FUNCTIONS = []
+FUNCTIONS = ['pyx:cudd.pyx', 'pyx:cudd_zdd.pyx', 'pyx:sylvan.pyx', 'pyx:buddy.pyx']
 CUTS = pyx.CUTS
 
 SCEN = ['lifecycle', 'incref', 'decref', 'dealloc_from_any_ref']
